@@ -309,7 +309,9 @@ def gen_cases(tier, seed):
         C = rng.choice([4, 8])
         T = rng.choice([C, 2 * C])
         size = rng.choice([T - 1, T, 2 * C + 1, 4 * C, 5 * C + 3])
-        t = {'kind': 'download', 'dst': rng.choice(['nonseekable', 'fifo', 'fifo']), 'size': size}
+        t = {'kind': 'download', 'dst': rng.choice(['nonseekable', 'nonseekable', 'fifo', 'fifo']), 'size': size}
+        if t['dst'] == 'nonseekable' and rng.random() < 0.5:
+            t['flavor'] = 'declared'  # says seekable() is False although seek() / tell() exist
         if t['dst'] == 'fifo' and rng.random() < 0.5:
             t['symlink'] = True
         cfg = dict(multipart_threshold=T, multipart_chunksize=C, io_chunksize=rng.choice([1, 3, C]), max_request_concurrency=rng.choice([1, 2, 3]),
